@@ -145,6 +145,26 @@ def check(line, info, stats):
                 want = "nil" if st(e["snap"][pr["target"]]) in FIN | {ALIVE} else "0"
                 if e["v"] != want:
                     bad.append(("next", "next returned %s but the generator's status is %d" % (e["v"], st(e["snap"][pr["target"]]))))
+    # ---- R8 the first value a fiber function sees is the value of its first resume, bound as documented
+    first = {1: info.get("root_v", "nil")}
+    for e in ents:
+        if e["t"] == "pre" and e["tstatus"] == NEW and e["target"] >= 0 and e["kind"] in (0, 2, 3):
+            first[e["target"]] = e["v"] if e["kind"] == 0 else "nil"
+        elif e["t"] == "ev" and e["l"] in info["param"] and e["fid"] in first:
+            sig, idx = info["param"][e["l"]]
+            arity, _, rest = info["sigs"][sig]
+            v = first[e["fid"]]
+            if idx < arity:
+                want = v if idx == 0 else "nil"
+            else:
+                empty = "()" if rest == 1 else "?struct"
+                want = "(%s)" % v if (arity == 0 and v != "nil") else empty
+            stats["first_value_params"] = stats.get("first_value_params", 0) + 1
+            if sig in ("opt", "optrest", "opt2") and idx == 0 and v != "nil":
+                stats["first_value_opt_param"] = stats.get("first_value_opt_param", 0) + 1
+            if e["v"] != want:
+                bad.append(("first_resume_value", "fiber %d (function signature %s) sees %s in parameter %d, but its first resume passed %s (expected %s)" %
+                            (e["fid"], sig, e["v"], idx, v, want)))
     # ---- R4 a signal is caught by the nearest fiber whose mask accepts it and changes no other fiber
     masks = {1: mask_of("a")}
     for e in ents:
